@@ -90,6 +90,8 @@ type caseT struct {
 	// Conc != nil: the observation was made while G goroutines fired the requests Qs (N each) at ONE router
 	// concurrently; Q = Qs[Idx]. The oracle is the ordinary per-request one.
 	Conc *concT `json:",omitempty"`
+	// Cfg != nil: a configuration case (cfg.go): only the option list matters
+	Cfg *cfgCaseT `json:",omitempty"`
 }
 
 type concT struct {
@@ -109,6 +111,7 @@ type obsT struct {
 	ran       []routeT
 	version   string
 	hdr       http.Header
+	events    [][]string // observer callbacks during this request (meaningful when nothing else is served meanwhile)
 }
 
 func (l lcT) time() time.Time {
@@ -169,10 +172,10 @@ func build(k caseT) (r *router.Router, err error) {
 			}
 		}
 		vo = append(vo, version.WithObserver(
-			version.OnDetected(func(string, string) { cb("D") }),
-			version.OnMissing(func() { cb("M") }),
-			version.OnInvalid(func(string) { cb("I") }),
-			version.OnDeprecatedUse(func(string, string) { cb("U") }),
+			version.OnDetected(func(v, m string) { recordEv("D", v, m); cb("D") }),
+			version.OnMissing(func() { recordEv("M"); cb("M") }),
+			version.OnInvalid(func(v string) { recordEv("I", v); cb("I") }),
+			version.OnDeprecatedUse(func(v, rt string) { recordEv("U", v, rt); cb("U") }),
 		))
 	}
 	ro := []router.Option{router.WithVersioning(vo...)}
@@ -259,6 +262,18 @@ func mkReq(q reqT) *http.Request {
 	return req
 }
 
+// observer callbacks of the request being served (single-request cases only: one request at a time)
+var (
+	evMu     sync.Mutex
+	evCalled [][]string
+)
+
+func recordEv(f ...string) {
+	evMu.Lock()
+	evCalled = append(evCalled, f)
+	evMu.Unlock()
+}
+
 // serveOne runs one request on the router and returns what was observed for THAT request.
 // obsPanicFired: an observer callback panicked (only in single-request cases: one request at a time).
 var obsPanicFired atomic.Bool
@@ -275,6 +290,9 @@ func serveOne(r *router.Router, q reqT) (o obsT) {
 	o.wantPanic = q.Panic
 	rec := httptest.NewRecorder()
 	obsPanicFired.Store(false)
+	evMu.Lock()
+	evCalled = nil
+	evMu.Unlock()
 	func() {
 		defer func() {
 			if p := recover(); p != nil {
@@ -284,6 +302,9 @@ func serveOne(r *router.Router, q reqT) (o obsT) {
 		r.ServeHTTP(rec, req)
 	}()
 	o.obsFired = obsPanicFired.Load()
+	evMu.Lock()
+	o.events = evCalled
+	evMu.Unlock()
 	o.status = rec.Code
 	o.hdr = rec.Header()
 	return o
@@ -559,6 +580,22 @@ func emitObs(id string, k caseT, o obsT, st *hx.Stats) string {
 		}
 		for _, h := range []string{"X-API-Version", "Deprecation", "Sunset", "Link", "Warning"} {
 			optHdr(l, o.hdr, h)
+		}
+		if k.C.Observer && k.C.ObsPanic == "" && k.Conc == nil {
+			// the observer callbacks this request caused, in call order (glue: compared with the model, no oracle clause)
+			l.Tok("V").Nat(len(o.events))
+			for _, e := range o.events {
+				l.Tok(e[0])
+				for _, a := range e[1:] {
+					l.Str(a)
+				}
+			}
+			if st != nil {
+				st.Count("observer_events_compared")
+				for _, e := range o.events {
+					st.Count("observer_event_" + e[0])
+				}
+			}
 		}
 	}
 	if st != nil {
@@ -1242,6 +1279,12 @@ func main() {
 				fmt.Fprintln(w, line)
 			}
 		}
+		for i, k := range fixedCfgCases() {
+			fmt.Fprintln(w, emitCfg(fmt.Sprintf("c13o-fix-%d", i), k, st))
+		}
+		for i := 0; i < a.N/10; i++ {
+			fmt.Fprintln(w, emitCfg(fmt.Sprintf("c13o-%d-%d", a.Seed, i), genCfgCase(r), st))
+		}
 		nb := 6
 		if a.Tier == "thorough" {
 			nb = 40
@@ -1255,6 +1298,10 @@ func main() {
 			id, err := hx.CaseFromComment(line, &k)
 			if err != nil {
 				fmt.Fprintf(w, "# cannot replay %q: %v\n", id, err)
+				continue
+			}
+			if k.Cfg != nil {
+				fmt.Fprintln(w, emitCfg(id, *k.Cfg, nil))
 				continue
 			}
 			if k.Conc != nil { // re-run the concurrent batch, report what request Idx was answered
